@@ -386,6 +386,8 @@ pub fn scoping_programs() -> Vec<String> {
         "void fill(int a[2], int v) { a[0] = v; a[1] += v; }\nint s14(int x) { int v[2] = { x, 2 }; fill(v, 5); return v[0] * 100 + v[1]; }\n",
         // a function template with out / inout parameters (the Metal exporter adds a wrapper per instantiation)
         "template<typename T> void setv(out T v, T w) { v = w; }\ntemplate<typename T> T bump(inout T v, T w) { v += w; return v; }\nint s15(int x) { int a[2]; setv(a[0], x); setv(a[1], 7); int r = bump(a[1], 2); return a[0] * 100 + a[1] * 10 + r; }\n",
+        // a parameter that carries a semantic and a default value, an interpolation modifier and a default value
+        "float s16(float x, float gain : GAIN = 2.0f, nointerpolation float bias : BIAS = 0.5f) { return x * gain + bias; }\nfloat s17(float x) { return s16(x) + s16(x, 3.0f) + s16(x, 3.0f, 1.0f); }\n",
     ];
     scoping.iter().map(|t| t.to_string()).collect()
 }
